@@ -21,6 +21,7 @@ func Run(c *fw.Ctx) {
 	c.Cases("table.variants", c.N(7128, 71280), tableVariantCase)
 	c.Cases("table.history", c.N(4320, 43200), tableHistoryCase)
 	c.Cases("config.dist", c.N(8400, 84000), configCase)
+	c.Cases("config.history", c.N(2400, 24000), configHistoryCase)
 	c.Cases("malformed.json", c.N(50400, 504000), malformedJSONCase)
 	c.Cases("malformed.table", c.N(30240, 302400), malformedTableCase)
 	c.Cases("malformed.config", c.N(17472, 174720), malformedConfigCase)
